@@ -55,6 +55,7 @@ class Ctx:
         self.notes = []
         self.exhaustive = None
         self.ext_dir = None
+        self.stage = "build"
         self.extra = {}
 
     @property
@@ -270,7 +271,15 @@ def main(argv=None):
             if files:
                 inner = os.path.realpath(files[-1][0])
                 tb = [type("F", (), {"filename": f, "lineno": int(l), "name": n}) for f, l, n in files]
-        if inner.startswith(repo_py) and not isinstance(e, (KeyboardInterrupt, MemoryError, ImportError, SyntaxError)):
+        from .lib import driver as _driver
+
+        in_impl = inner.startswith(repo_py)
+        # Past the build and audit stages, with the Lean driver answering, an exception that escapes
+        # the harness while it handles the implementation's data is - on a tree where the check passes
+        # for every seed tried - a consequence of what the implementation returned (a damaged object, a
+        # value of another type or shape).  It is reported per the protocol, not as exit 2.
+        late = getattr(ctx, "stage", "build") == "impl" and not isinstance(e, (_driver.DriverError,))
+        if (in_impl or late) and not isinstance(e, (KeyboardInterrupt, MemoryError, ImportError, SyntaxError)):
             # The exception was raised INSIDE the implementation while the harness was driving it through
             # an operation it performs on the unchanged tree without trouble: the correspondence is broken
             # and no failing input of the property itself was isolated (DESIGN 1.3).
@@ -278,7 +287,8 @@ def main(argv=None):
             payload = {
                 "property": prop,
                 "no_failing_input_found": True,
-                "what": "the implementation raised %s: %s at %s while the correspondence harness was driving it (an operation that completes on the unchanged tree); the property is no longer SHOWN to hold" % (type(e).__name__, str(e)[:300], frames[-1]),
+                "what": ("the implementation raised %s: %s at %s while the correspondence harness was driving it (an operation that completes on the unchanged tree)" % (type(e).__name__, str(e)[:300], frames[-1]) if in_impl else
+                         "the harness could not process what the implementation returned (%s: %s at %s; the same run completes on the unchanged tree)" % (type(e).__name__, str(e)[:300], frames[-1] if frames else "?")) + "; the property is no longer SHOWN to hold",
                 "traceback": frames,
                 "seed": ctx.seed,
                 "tier": ctx.tier,
@@ -308,6 +318,7 @@ def run(ctx, mod, args):
         ctx.ext_dir = d
         ctx.note("tak_ext: " + d)
     env.setup_impl_path(ctx.ext_dir)
+    ctx.stage = "impl"
     if os.environ.get("COVERAGE_PROCESS_START"):
         import coverage  # tools/tie_coverage.py: which lines of /repo/python does this check execute?
 
